@@ -138,7 +138,7 @@ def judge(chk, lib, pops, modes):
                 return found
             ds = set(g.id - w.id for g, w in zip(seg, p.insts))
             if fi == 0:
-                if ds != {0}:
+                if ds != {0} and p.insts:
                     found.append(('first file|ids changed', 'offsets %s' % sorted(ds)[:5], files))
                     return found
                 d = 0
@@ -166,7 +166,10 @@ def judge(chk, lib, pops, modes):
                                 continue
                             pidx = [x[0] for x in w.parts].index(kw)
                             shp = p21fam.attr_shape(lib.schema, w, pidx, j)
-                            if re.match(r'^(OPTIONAL )?\w+ OF (OPTIONAL )?\w+ OF .*entity', shp):
+                            if re.match(r'^(OPTIONAL )?\w+ OF (OPTIONAL )?\w+ OF .*entity', shp) or \
+                                    (re.match(r'^(OPTIONAL )?\w+ OF (OPTIONAL )?\w+ OF ', shp) and dd[1].startswith('ref')):
+                                # an entity reference anywhere below an aggregate of aggregates (element type entity or a select with an
+                                # entity member): one root cause, the generic aggregate node keeps nested elements as text
                                 shp = 'nested aggregate of entity' + (' in complex part' if 'complex part' in shp else '')
                             kindd = 'reference not shifted by the file offset' if dd[1].startswith('ref') else dd[1]
                             found.append(('%s|%s|%s' % ('appended file' if fi else 'first file', shp, kindd),
